@@ -238,6 +238,10 @@ func FindInsertionPoints(
 			// if the root value is a list
 			if rootList, ok := rootValue.([]interface{}); ok {
 				for i := range oldBranch {
+					// the service can answer with fewer entries than there are branches
+					if i >= len(rootList) {
+						return nil, fmt.Errorf("root list of result chunk has no entry %d. Point: %v", i, point)
+					}
 					entry, ok := rootList[i].(map[string]interface{})
 					if !ok {
 						return nil, errors.New("item in root list isn't a map")
